@@ -82,6 +82,12 @@ pub fn prelude(kind: u8, request: bool) -> Vec<u8> {
             v.extend(h2::ping());
             v
         }
+        5 => {
+            // a maximum-size (16384-byte) extension frame before the header block
+            let mut v = h2::settings(&[(4, 1048576)]);
+            v.extend(h2::frame(0x21, 0, 0, &vec![0x55; 16384]));
+            v
+        }
         _ => {
             // an extension frame type (to be ignored) and a SETTINGS acknowledgement
             let mut v = h2::settings(&[(4, 1048576)]);
@@ -179,6 +185,32 @@ pub fn messages() -> Vec<Msg> {
     }
     v
 }
+/// `m` extended by filler headers so that its header block (literal without indexing, no Huffman) is exactly `target` bytes
+fn sized_message(m: &Msg, target: usize) -> Option<Msg> {
+    let probe = |fill: usize, extra: usize| -> (Msg, usize) {
+        let mut x = m.clone();
+        x.headers.push((s("x-fill"), "f".repeat(fill)));
+        if extra > 0 {
+            x.headers.push((s("x-e"), "e".repeat(extra - 1)));
+        }
+        let c = Case { msg: x.clone(), pseudo: s("mpas"), reps: vec![Rep::LitNoIdx], huff_names: false, huff_values: false, size_updates: vec![], framing: Framing::default(), prelude: 1 };
+        (x, block(&c).len())
+    };
+    let base = probe(0, 0).1;
+    if target < base {
+        return None;
+    }
+    for extra in 0..4 {
+        let guess = target - base;
+        for fill in guess.saturating_sub(12)..=guess {
+            let (x, len) = probe(fill, extra);
+            if len == target {
+                return Some(x);
+            }
+        }
+    }
+    None
+}
 fn all_rep_vectors(n: usize) -> Vec<Vec<Rep>> {
     let mut out: Vec<Vec<Rep>> = vec![vec![]];
     for _ in 0..n {
@@ -240,7 +272,7 @@ pub fn cases(thorough: bool) -> Vec<(Case, &'static str)> {
     framings.push(Framing { prio: Some((true, 3, 0)), pad: Some(3), ..Default::default() });
     for m in &msgs {
         for f in &framings {
-            for pre in 0..5u8 {
+            for pre in 0..6u8 {
                 for rep in [Rep::LitNoIdx, Rep::Indexed] {
                     v.push((Case { framing: f.clone(), prelude: pre, reps: vec![rep], huff_values: true, ..plain(m) }, "framings"));
                 }
@@ -264,6 +296,26 @@ pub fn cases(thorough: bool) -> Vec<(Case, &'static str)> {
             for a in [1usize, len / 2, len.saturating_sub(1)] {
                 v.push((Case { framing: Framing { splits: vec![a], pad: Some(2), prio: Some((false, 0, 15)), end_stream: false }, ..base.clone() }, "continuation"));
             }
+        }
+    }
+    // (5) frame size boundary: HEADERS / CONTINUATION / preceding frames whose payload is exactly 16383 or 16384
+    // bytes (the largest legal size with default settings)
+    for target in [16383usize, 16384] {
+        for (pad, prio) in [(None, None), (Some(5u8), None), (None, Some((false, 0u32, 7u8))), (Some(2), Some((true, 1, 255)))] {
+            let overhead = pad.map(|p| 1 + p as usize).unwrap_or(0) + if prio.is_some() { 5 } else { 0 };
+            if let Some(m) = sized_message(&msgs[1], target - overhead) {
+                v.push((Case { framing: Framing { pad, prio, ..Default::default() }, ..plain(&m) }, "frame-size-boundary"));
+                // the same block cut so that the HEADERS fragment or the CONTINUATION fragment has the boundary size
+                if let Some(big) = sized_message(&msgs[1], target - overhead + 300) {
+                    v.push((Case { framing: Framing { pad, prio, splits: vec![target - overhead], ..Default::default() }, ..plain(&big) }, "frame-size-boundary"));
+                    if pad.is_none() && prio.is_none() {
+                        v.push((Case { framing: Framing { splits: vec![300], ..Default::default() }, ..plain(&big) }, "frame-size-boundary"));
+                    }
+                }
+            }
+        }
+        if let Some(m) = sized_message(&msgs[5], target) {
+            v.push((plain(&m), "frame-size-boundary"));
         }
     }
     for m in [&msgs[2], &msgs[8], &msgs[10]] {
